@@ -213,6 +213,9 @@ def run(ctx):
             req['rename_samples'] = {n: 'rn_' + n for n in pick(smp, 1)}
             req['rename_channels'] = {n: 'rn_' + n for n in pick(chn, 1)}
             req['rename_measurements'] = {n: 'rn_' + n for n in pick(['meas'], 1)}
+            if rng.random() < 0.3 and 'second' not in req['prune_measurements']:
+                req['rename_measurements'] = rng.choice([{'meas': 'second', 'second': 'meas'}, {'second': 'meas', 'meas': 'second'}, {'meas': 'meas'}])   # a swap / the identity
+                ctx.tally('rename_kind', 'measurement-swap')
         if bogus:
             k = rng.choice(['prune_modifiers', 'prune_modifier_types', 'prune_samples', 'prune_channels', 'prune_measurements'])
             req[k] = req[k] + ['no_such_thing']
@@ -238,6 +241,10 @@ def run(ctx):
             if bogus: ctx.fail('C16/prune-unknown', 'a request naming an unknown item was accepted', inp)
             kept_pars = [[q for q in m['config']['parameters'] if q['name'] not in req['prune_modifiers']] for m in frozen['measurements'] if m['name'] not in req['prune_measurements']]
             got_pars = [m['config']['parameters'] for m in o['measurements']]
+            rmeas = req['rename_measurements']
+            want_mn = [rmeas.get(m['name'], m['name']) for m in frozen['measurements'] if m['name'] not in req['prune_measurements']]
+            if [m['name'] for m in o['measurements']] != want_mn:
+                ctx.fail('C16/rename-measurements', 'the measurements of the result are not the surviving ones, each under its image of the renaming (applied simultaneously)', inp, [m['name'] for m in o['measurements']], want_mn)
             ren = req['rename_modifiers']
             if [[dict(q, name=ren.get(q['name'], q['name'])) for q in ps] for ps in kept_pars] != got_pars:
                 ctx.fail('C16/prune-configs', 'parameter configurations of surviving names were dropped or changed', inp, got_pars, kept_pars)
